@@ -418,6 +418,18 @@ class SStr(Proxy):
         st = _iz(start)
         return SInt(z3.IndexOf(self.t, self._other(sub), st))
 
+    def count(self, sub, start=None, end=None):
+        """number of non-overlapping occurrences in [start, end): an uninterpreted function of (text, sub, start, end), bounded by the window's length"""
+        c = cx()
+        n = z3.Length(self.t)
+        lo = _iz(start) if start is not None else z3.IntVal(0)
+        hi = _iz(end) if end is not None else n
+        f = z3.Function("py_count", z3.StringSort(), z3.StringSort(), z3.IntSort(), z3.IntSort(), z3.IntSort())
+        c.use_model("uninterpreted str.count (A-STDLIB): 0 <= count <= window length")
+        r = f(self.t, self._other(sub), lo, hi)
+        c.assume_z3(z3.And(r >= 0, z3.Implies(hi >= lo, r <= hi - lo), z3.Implies(hi < lo, r == 0)))
+        return SInt(r)
+
     def index(self, sub, start=0):
         r = self.find(sub, start)
         if r < 0:
